@@ -9,7 +9,8 @@ NOT_APPLICABLE = {f"C{i:02d}": WIP for i in range(1, 19)}
 SOURCE_COMMITS = ["746fd1a fix: undo the instrumentation counts when the new variant cannot be installed", "798314f fix: untool the functions of a selector that autotool ends up refusing", "f8603ba fix: roll back the tooling of earlier selectors when a later one is refused", "e29e1a9 fix: mark the cached instrumented variants as helper functions", "ceee686 fix: match the receiver of a bound-method selector by identity", "f362961 fix: serialize instrumentation changes between threads", "3d31492 fix: do not rewrite the bodies of nested classes, lambdas and async functions", "744a5c2 fix: rewrite the right-hand side of assignments too", "2a0cb7a fix: collect the names bound in except bodies and by match patterns", "466fe4b fix: report the name bound by a dotted import", "c1855a8 fix: do not bind the ABSENT marker to variables that are not instrumented", "40ebacf fix: report malformed selectors as syntax or selector errors", "26f5533 fix: refuse bound methods without a named receiver with a selector error", "914ba3a fix: do not treat the names of nested classes and async functions as externals",
                   "e89a480 fix: transform() no longer leaves '<function name> = None' in the module globals when the name was not a global (methods, nested functions)",
                   "1868cdf fix: report an absolute reference with a relative module part ('/.x/f') as an unresolvable reference",
-                  "d2d4c05 fix: VKeyword objects with equal key and value compare equal"]
+                  "d2d4c05 fix: VKeyword objects with equal key and value compare equal",
+                  "1282c41 fix: a /module/function reference to a module without a source file is refused with CodeNotFoundError"]
 
 claim("C12", "P", "AST normal-form comparison tables + wrapper-guard agreement (syntactic dataflow)",
       "Decides for all integers (not a sample): each stock comparison predicate is the single comparison its name states, Range rejects exactly value<start / value>=end "
